@@ -149,28 +149,41 @@ class GroupCoordinator:
                   "instance_id": obj.get("group_instance_id")})
         g.members[mid] = m
         self._arm(g, mid)
-        holder = {}
+        # The coordinator's state changes when it PROCESSES the request, whether or not the reply
+        # ever reaches the member (lost reply / dropped connection).
+        holder = {"send": None, "early": None}
+
+        def cb(reply):
+            if holder["send"] is not None:
+                holder["send"](reply)
+            else:
+                holder["early"] = reply
+        m["join_cb"] = cb
+        if g.state in (EMPTY,):
+            self._prepare_rebalance(g, "first member")
+            self._maybe_complete_join(g)
+        elif g.state == STABLE:
+            if new or changed or mid == g.leader:
+                self._prepare_rebalance(g, f"join of {mid}")
+                self._maybe_complete_join(g)
+            else:
+                m["join_cb"] = None
+                cb(self._join_reply(g, mid))
+        elif g.state == COMPLETING:
+            if new or changed:
+                self._prepare_rebalance(g, f"join of {mid} while completing")
+                self._maybe_complete_join(g)
+            else:
+                m["join_cb"] = None
+                cb(self._join_reply(g, mid))
+        else:
+            self._maybe_complete_join(g)
 
         def deferred(send):
             holder["send"] = send
-            m["join_cb"] = send
-            if g.state in (EMPTY,):
-                self._prepare_rebalance(g, "first member")
-            elif g.state == STABLE:
-                if new or changed or mid == g.leader:
-                    self._prepare_rebalance(g, f"join of {mid}")
-                else:
-                    m["join_cb"] = None
-                    send(self._join_reply(g, mid))
-                    return
-            elif g.state == COMPLETING:
-                if new or changed:
-                    self._prepare_rebalance(g, f"join of {mid} while completing")
-                else:
-                    m["join_cb"] = None
-                    send(self._join_reply(g, mid))
-                    return
-            self._maybe_complete_join(g)
+            if holder["early"] is not None:
+                r, holder["early"] = holder["early"], None
+                send(r)
         return deferred
 
     def _prepare_rebalance(self, g, why):
@@ -280,21 +293,32 @@ class GroupCoordinator:
             self._arm(g, mid)
             return {"error_code": 0, "member_assignment": g.members[mid]["assignment"]}
         m = g.members[mid]
+        holder = {"send": None, "early": None}
+
+        def cb(reply):
+            if holder["send"] is not None:
+                holder["send"](reply)
+            else:
+                holder["early"] = reply
+        m["sync_cb"] = cb
+        if mid == g.leader:
+            asg = {a["member_id"]: bytes(a["member_metadata"]) for a in obj["group_assignment"]}
+            for x, mm in g.members.items():
+                mm["assignment"] = asg.get(x, b"")
+            g.state = STABLE
+            g.history[-1]["assignments"] = {x: mm["assignment"] for x, mm in g.members.items()}
+            self.c.ev("sync_complete", group=g.gid, generation=g.generation)
+            for x, mm in g.members.items():
+                if mm.get("sync_cb"):
+                    c2, mm["sync_cb"] = mm["sync_cb"], None
+                    self._arm(g, x)
+                    c2({"error_code": 0, "member_assignment": mm["assignment"]})
 
         def deferred(send):
-            m["sync_cb"] = send
-            if mid == g.leader:
-                asg = {a["member_id"]: bytes(a["member_metadata"]) for a in obj["group_assignment"]}
-                for x, mm in g.members.items():
-                    mm["assignment"] = asg.get(x, b"")
-                g.state = STABLE
-                g.history[-1]["assignments"] = {x: mm["assignment"] for x, mm in g.members.items()}
-                self.c.ev("sync_complete", group=g.gid, generation=g.generation)
-                for x, mm in g.members.items():
-                    if mm.get("sync_cb"):
-                        cb, mm["sync_cb"] = mm["sync_cb"], None
-                        self._arm(g, x)
-                        cb({"error_code": 0, "member_assignment": mm["assignment"]})
+            holder["send"] = send
+            if holder["early"] is not None:
+                r, holder["early"] = holder["early"], None
+                send(r)
         return deferred
 
     def heartbeat(self, node, cls, obj, info):
